@@ -42,6 +42,10 @@ pub trait Hooks: Send + Sync {
     fn rng_seed(&self) -> Option<u64> {
         None
     }
+    /// Simulated network, if the calling thread belongs to a simulation that provides one.
+    fn net(&self) -> Option<&dyn net::Backend> {
+        None
+    }
     /// Access to a simulator-specific extension object (network backends and the like).
     fn ext(&self, _name: &'static str) -> Option<&(dyn std::any::Any + Send + Sync)> {
         None
@@ -543,6 +547,46 @@ pub mod arc {
         fn fmt(&self, f: &mut std::fmt::Formatter<'_>) -> std::fmt::Result {
             self.0.fmt(f)
         }
+    }
+}
+
+pub mod net {
+    //! Byte-level network backend implemented by the simulator; the per-crate socket shims only
+    //! translate API shapes onto it.
+    use std::io;
+
+    /// Readiness reported by `poll`.
+    #[derive(Clone, Copy, Debug, PartialEq, Eq)]
+    pub struct Ready {
+        pub token: usize,
+        pub readable: bool,
+        pub writable: bool,
+    }
+
+    pub trait Backend: Send + Sync {
+        /// Connects a datagram socket to `endpoint` (e.g. `udp://127.0.0.1:8125`, `unixgram:///p`).
+        fn dgram_connect(&self, endpoint: &str) -> io::Result<u64>;
+        fn dgram_send(&self, sock: u64, buf: &[u8]) -> io::Result<usize>;
+        /// Connects a byte stream to `endpoint` (e.g. `unix:///p`).
+        fn stream_connect(&self, endpoint: &str) -> io::Result<u64>;
+        fn stream_write(&self, sock: u64, buf: &[u8]) -> io::Result<usize>;
+        fn stream_read(&self, sock: u64, buf: &mut [u8]) -> io::Result<usize>;
+        fn stream_peer(&self, sock: u64) -> io::Result<std::net::SocketAddr>;
+        fn close(&self, sock: u64);
+        /// Non-blocking listener bound to `addr`.
+        fn listen(&self, addr: std::net::SocketAddr) -> io::Result<u64>;
+        fn accept(&self, listener: u64) -> io::Result<(u64, std::net::SocketAddr)>;
+        /// Readiness selector (mio shape).
+        fn poll_create(&self) -> io::Result<u64>;
+        fn poll_register(&self, poll: u64, source: u64, token: usize, readable: bool, writable: bool) -> io::Result<()>;
+        fn poll_deregister(&self, poll: u64, source: u64) -> io::Result<()>;
+        fn poll_wait(&self, poll: u64, max_events: usize, timeout: Option<std::time::Duration>) -> io::Result<Vec<Ready>>;
+        fn waker_create(&self, poll: u64, token: usize) -> io::Result<u64>;
+        fn wake(&self, waker: u64) -> io::Result<()>;
+    }
+
+    pub fn backend() -> Option<&'static dyn Backend> {
+        super::hooks().and_then(|h| h.net())
     }
 }
 
